@@ -17,60 +17,179 @@ EXPLANATION = (
 ASSUMPTIONS = ["byte equality over all traffic scripts and interleavings is value/schedule-level and is not decided; these are necessary wiring conditions"]
 
 
+class OptionEval:
+    """Which configuration option (presence of `ssl` / `ws` / `quic` ..) a switch operand stands for, followed through copies, references, tuples of
+    references, `is_some()` / `is_none()` booleans, negation, helper parameters and the state of a spliced `async fn` (flat views)."""
+
+    def __init__(self, b, names):
+        self.b = b
+        self.names = tuple(names)
+
+    def switches(self):
+        out = {}
+        for blk in self.b.rpo():
+            t = self.b.term(blk)
+            if t and t["k"] == "switch" and op_place(t["d"]) is not None and not op_place(t["d"])[1]:
+                o = self.option_of(op_place(t["d"])[0])
+                if o:
+                    out[blk] = o
+        return out
+
+    def decide(self, cfg):
+        sw = self.switches()
+
+        def _decide(blk, t):
+            o = sw.get(blk)
+            if o is None:
+                return None
+            nm, neg, kind = o
+            val = cfg[nm] if kind == "discr" else int(bool(cfg[nm]) != neg)
+            return switch_target(t, val)
+        return _decide
+
+    def option_of(self, local, depth=0, neg=False):
+        """(`ssl` | `ws`, negated, kind) if the local is the discriminant / an is_some() boolean of that configuration option"""
+        if depth > 10:
+            return None
+        for d in self.b.defs().get(local, []):
+            if d[0] == "assign":
+                rv = d[3]["rv"]
+                if rv["k"] == "discr":
+                    nm = self.field_of(rv["p"])
+                    return (nm, neg, "discr") if nm else None
+                if rv["k"] == "un" and rv["op"] == "Not":
+                    q = op_place(rv["a"])
+                    return self.option_of(q[0], depth + 1, not neg) if q and not q[1] else None
+                if rv["k"] in ("use", "cast"):
+                    q = op_place(rv["op"])
+                    if q is not None and not q[1]:
+                        return self.option_of(q[0], depth + 1, neg)
+                    if q is not None:
+                        # a slot of a value that was built here: the state of a spliced `async fn` (its parameters), a tuple, a struct
+                        src = self.agg_slot(q, 0)
+                        if src is not None:
+                            return self.option_of(src, depth + 1, neg)
+                    return None
+            elif d[0] == "call":
+                c_ = Callee(d[2]["f"])
+                if c_.name in ("Option::is_some", "Option::is_none") and d[2]["args"]:
+                    q = op_place(d[2]["args"][0])
+                    nm = self.field_of(q) if q else None
+                    return (nm, neg != (c_.name == "Option::is_none"), "bool") if nm else None
+        return None
+
+    def agg_slot(self, place, depth):
+        """the local that was put into the aggregate slot `place` reads (through references, copies and the pinning of a spliced future)"""
+        if depth > 10:
+            return None
+        proj = list(place[1])
+        last_deref = max([i for i, e in enumerate(proj) if e[0] == "deref"], default=-1)
+        idx = [e[1] for e in proj[last_deref + 1:] if e[0] == "field"] or [e[1] for e in proj if e[0] == "field"]      # `((*(_1.0)).2)`: slot 2 of what the pin points to
+        if not idx:
+            return None
+        work, seen_ = [place[0]], set()
+        while work:
+            l = work.pop()
+            if l in seen_ or len(seen_) > 40:
+                continue
+            seen_.add(l)
+            for d in self.b.defs().get(l, []):
+                if d[0] == "assign":
+                    rv = d[3]["rv"]
+                    if rv["k"] == "agg" and idx[0] < len(rv["ops"]):
+                        q = op_place(rv["ops"][idx[0]])
+                        if q is not None and not q[1]:
+                            return q[0]
+                        if q is not None:
+                            return self.agg_slot(q, depth + 1)
+                    elif rv["k"] in ("use", "cast"):
+                        q = op_place(rv["op"])
+                        if q is not None:
+                            work.append(q[0])
+                    elif rv["k"] in ("ref", "rawptr"):
+                        work.append(rv["p"][0])
+                elif d[0] == "call" and d[2]["args"]:
+                    # Pin::new_unchecked(&mut fut), IntoFuture::into_future(fut), get_unchecked_mut ...: the same object
+                    if Callee(d[2]["f"]).name in ("Pin::new_unchecked", "IntoFuture::into_future", "Pin::get_unchecked_mut", "Pin::as_mut", "Pin::new", "Pin::get_mut", "Deref::deref", "DerefMut::deref_mut"):
+                        q = op_place(d[2]["args"][0])
+                        if q is not None:
+                            work.append(q[0])
+        return None
+
+    def field_of(self, place, depth=0):
+        """the configuration option a place is (a reference to / a tuple slot holding a reference to)"""
+        if place is None or depth > 10:
+            return None
+        names = [e[2] for e in place[1] if e[0] == "field" and len(e) > 2 and e[2]]
+        if names and names[-1] in self.names:
+            return names[-1]
+        idx = [e[1] for e in place[1] if e[0] == "field"]
+        for d in self.b.defs().get(place[0], []):
+            if d[0] != "assign":
+                continue
+            rv = d[3]["rv"]
+            if rv["k"] == "ref":
+                r = self.field_of(rv["p"], depth + 1)
+                if r:
+                    return r
+            elif rv["k"] in ("use", "cast"):
+                q = op_place(rv["op"])
+                if q is not None:
+                    r = self.field_of([q[0], list(q[1]) + list(place[1])], depth + 1)
+                    if r:
+                        return r
+            elif rv["k"] == "agg" and rv.get("ak") == "tuple" and idx and idx[0] < len(rv["ops"]):
+                q = op_place(rv["ops"][idx[0]])
+                r = self.field_of(q, depth + 1) if q else None
+                if r:
+                    return r
+        return None
+
+
 def run(ctx):
     prog = ctx.prog
     bodies = [b for b in prog.prod_bodies() if "::_" not in b.defp]
 
     # ---------------- W1 client -----------------------------------------------------------------
-    sel = [b for b in bodies if b.defp.startswith("octo_squirrel_client") and
-           len({c.target for (_, c, _) in b.calls() if re.search(r"template::new_\w+_outbound$", c.target)}) >= 4]
+    # role: an outbound constructor is a client `async fn` whose result is a transport stack (`Framed<..>` / `WebSocketFramed<..>` over TcpStream,
+    # TlsStream or QuicStream); the transport selector is the client function whose flat view reaches at least four different ones. It is
+    # evaluated for each of the eight configurations with the same value tracking as the server's listener.
+    _ctor_memo = {}
+
+    def is_outbound_ctor(target):
+        if target not in _ctor_memo:
+            ok = False
+            if target.startswith("octo_squirrel_client") and prog.body(target) is not None:
+                rty = _async_ret_type(prog, target) or ""
+                ok = "Result<" in rty and ("Framed<" in rty) and any(w in rty for w in ("TcpStream", "QuicStream", "TlsStream"))
+            _ctor_memo[target] = ok
+        return _ctor_memo[target]
+    sel = []
+    for b0 in bodies:
+        if not b0.defp.startswith("octo_squirrel_client") or b0.root == b0.defp and prog.body(b0.defp) is None:
+            continue
+        if len({c.target for (_, c, _) in b0.calls() if is_outbound_ctor(c.target)}) < 1:
+            continue
+        fb0 = prog.flat(b0.defp, stop=lambda cb: not cb.defp.startswith("octo_squirrel_client") or is_outbound_ctor(cb.defp), key="w1-selector")
+        if len({c.target for (_, c, _) in fb0.calls() if is_outbound_ctor(c.target)}) >= 4:
+            sel.append(fb0)
+    sel = [x for x in sel if not any(y is not x and x.defp in set(y.origin) for y in sel)] or sel
     ctx.floor("W1", "client transport selector", 1, len(sel))
     for b in sel:
-        # tuple (ssl, ws, quic) -> position of each option
-        pos = {}
-        tuple_local = None
-        for blk in b.rpo():
-            for s in b.stmts(blk):
-                if s["k"] == "assign" and s["rv"]["k"] == "agg" and s["rv"]["ak"] == "tuple" and len(s["rv"]["ops"]) == 3:
-                    names = []
-                    for o in s["rv"]["ops"]:
-                        p = op_place(o)
-                        nm = None
-                        if p is not None:
-                            for d in b.defs().get(p[0], []):
-                                if d[0] == "assign" and d[3]["rv"]["k"] == "ref":
-                                    fs = [e[2] for e in d[3]["rv"]["p"][1] if e[0] == "field" and e[2]]
-                                    if fs:
-                                        nm = fs[-1]
-                        names.append(nm)
-                    if set(names) == {"ssl", "ws", "quic"}:
-                        tuple_local = s["p"][0]
-                        pos = {i: n for i, n in enumerate(names)}
-        if tuple_local is None:
-            ctx.anchor_lost("W1", "(ssl, ws, quic) tuple in the client transport selector")
+        oe = OptionEval(b, ("ssl", "ws", "quic"))
+        found = {o[0] for o in oe.switches().values()}
+        if found != {"ssl", "ws", "quic"}:
+            ctx.anchor_lost("W1", f"the client selector's tests of the ssl / ws / quic options (found: {sorted(found)})")
             continue
         for combo in itertools.product((0, 1), repeat=3):
             cfg = dict(zip(("ssl", "ws", "quic"), combo))
-
-            def decide(blk, t, cfg=cfg):
-                p = op_place(t["d"])
-                if p is None:
-                    return None
-                src = discr_source_field(b, p[0])
-                if src and src[0] == tuple_local and src[1]:
-                    return switch_target(t, cfg[pos[src[1][0][0]]])
-                return None
-
-            seen = simulate_cfg(b, decide)
+            seen = simulate_cfg(b, oe.decide(cfg))
             ctors = []
-            for blk in seen:
-                t = b.term(blk)
-                if t and t["k"] == "call":
-                    c = Callee(t["f"])
-                    if re.search(r"template::new_\w+_outbound$", c.target):
-                        ctors.append((c, t))
+            for (blk, c, t) in b.calls():
+                if blk in seen and c.name != "Future::poll" and is_outbound_ctor(c.target):
+                    ctors.append((c, t))
             label = "ssl=%d,ws=%d,quic=%d" % combo
-            if len(ctors) != 1:
+            if len({c.target for (c, _) in ctors}) != 1:
                 ctx.ob("W1", b.defp, f"client:{label}:one-transport", loc(b.sp), False, f"configuration {label} reaches {len(ctors)} outbound constructors", ordinal=False)
                 continue
             c, t = ctors[0]
@@ -98,110 +217,8 @@ def run(ctx):
             srv.append(fb)
     ctx.floor("W1", "server TCP listener", 1, len(srv))
     for b in srv:
-        def option_of(local, depth=0, neg=False):
-            """(`ssl` | `ws`, negated, kind) if the local is the discriminant / an is_some() boolean of that configuration option"""
-            if depth > 10:
-                return None
-            for d in b.defs().get(local, []):
-                if d[0] == "assign":
-                    rv = d[3]["rv"]
-                    if rv["k"] == "discr":
-                        nm = field_of(rv["p"])
-                        return (nm, neg, "discr") if nm else None
-                    if rv["k"] == "un" and rv["op"] == "Not":
-                        q = op_place(rv["a"])
-                        return option_of(q[0], depth + 1, not neg) if q and not q[1] else None
-                    if rv["k"] in ("use", "cast"):
-                        q = op_place(rv["op"])
-                        if q is not None and not q[1]:
-                            return option_of(q[0], depth + 1, neg)
-                        if q is not None:
-                            # a slot of a value that was built here: the state of a spliced `async fn` (its parameters), a tuple, a struct
-                            src = agg_slot(q, 0)
-                            if src is not None:
-                                return option_of(src, depth + 1, neg)
-                        return None
-                elif d[0] == "call":
-                    c_ = Callee(d[2]["f"])
-                    if c_.name in ("Option::is_some", "Option::is_none") and d[2]["args"]:
-                        q = op_place(d[2]["args"][0])
-                        nm = field_of(q) if q else None
-                        return (nm, neg != (c_.name == "Option::is_none"), "bool") if nm else None
-            return None
-
-        def agg_slot(place, depth):
-            """the local that was put into the aggregate slot `place` reads (through references, copies and the pinning of a spliced future)"""
-            if depth > 10:
-                return None
-            proj = list(place[1])
-            last_deref = max([i for i, e in enumerate(proj) if e[0] == "deref"], default=-1)
-            idx = [e[1] for e in proj[last_deref + 1:] if e[0] == "field"] or [e[1] for e in proj if e[0] == "field"]      # `((*(_1.0)).2)`: slot 2 of what the pin points to
-            if not idx:
-                return None
-            work, seen_ = [place[0]], set()
-            while work:
-                l = work.pop()
-                if l in seen_ or len(seen_) > 40:
-                    continue
-                seen_.add(l)
-                for d in b.defs().get(l, []):
-                    if d[0] == "assign":
-                        rv = d[3]["rv"]
-                        if rv["k"] == "agg" and idx[0] < len(rv["ops"]):
-                            q = op_place(rv["ops"][idx[0]])
-                            if q is not None and not q[1]:
-                                return q[0]
-                            if q is not None:
-                                return agg_slot(q, depth + 1)
-                        elif rv["k"] in ("use", "cast"):
-                            q = op_place(rv["op"])
-                            if q is not None:
-                                work.append(q[0])
-                        elif rv["k"] in ("ref", "rawptr"):
-                            work.append(rv["p"][0])
-                    elif d[0] == "call" and d[2]["args"]:
-                        # Pin::new_unchecked(&mut fut), IntoFuture::into_future(fut), get_unchecked_mut ...: the same object
-                        if Callee(d[2]["f"]).name in ("Pin::new_unchecked", "IntoFuture::into_future", "Pin::get_unchecked_mut", "Pin::as_mut", "Pin::new", "Pin::get_mut", "Deref::deref", "DerefMut::deref_mut"):
-                            q = op_place(d[2]["args"][0])
-                            if q is not None:
-                                work.append(q[0])
-            return None
-
-        def field_of(place, depth=0):
-            """the configuration option a place is (a reference to / a tuple slot holding a reference to)"""
-            if place is None or depth > 10:
-                return None
-            names = [e[2] for e in place[1] if e[0] == "field" and len(e) > 2 and e[2]]
-            if names and names[-1] in ("ssl", "ws"):
-                return names[-1]
-            idx = [e[1] for e in place[1] if e[0] == "field"]
-            for d in b.defs().get(place[0], []):
-                if d[0] != "assign":
-                    continue
-                rv = d[3]["rv"]
-                if rv["k"] == "ref":
-                    r = field_of(rv["p"], depth + 1)
-                    if r:
-                        return r
-                elif rv["k"] in ("use", "cast"):
-                    q = op_place(rv["op"])
-                    if q is not None:
-                        r = field_of([q[0], list(q[1]) + list(place[1])], depth + 1)
-                        if r:
-                            return r
-                elif rv["k"] == "agg" and rv.get("ak") == "tuple" and idx and idx[0] < len(rv["ops"]):
-                    q = op_place(rv["ops"][idx[0]])
-                    r = field_of(q, depth + 1) if q else None
-                    if r:
-                        return r
-            return None
-        found_opts = set()
-        for blk in b.rpo():
-            t = b.term(blk)
-            if t and t["k"] == "switch" and op_place(t["d"]) is not None and not op_place(t["d"])[1]:
-                o = option_of(op_place(t["d"])[0])
-                if o:
-                    found_opts.add(o[0])
+        oe = OptionEval(b, ("ssl", "ws"))
+        found_opts = {o[0] for o in oe.switches().values()}
         if found_opts != {"ssl", "ws"}:
             ctx.anchor_lost("W1", f"the listener's tests of the ssl / ws options (found: {sorted(found_opts)})")
             continue
@@ -209,17 +226,7 @@ def run(ctx):
         for combo in itertools.product((0, 1), repeat=2):
             cfg = dict(zip(("ssl", "ws"), combo))
 
-            def decide(blk, t, cfg=cfg):
-                p = op_place(t["d"])
-                if p is None or p[1]:
-                    return None
-                o = option_of(p[0])
-                if o is None:
-                    return None
-                nm, neg, kind = o
-                val = cfg[nm] if kind == "discr" else int(bool(cfg[nm]) != neg)
-                return switch_target(t, val)
-
+            decide = oe.decide(cfg)
             seen = simulate_cfg(b, decide)
             relays = []
             for blk in seen:
